@@ -54,8 +54,11 @@ func (st *SplitTracker) TrackAssigned(shards []SourceSplitterShard) {
 		st.assignedSplits[shard.ShardID] = struct{}{}
 	}
 
-	if len(shards) > 0 {
-		st.LastAssignedSplitID = shards[len(shards)-1].ShardID
+	// Shard discovery lists the shards after LastAssignedSplitID. It must not go
+	// back to a lower ID or shards that were read to their end and removed
+	// are discovered, and assigned, again.
+	for _, shard := range shards {
+		st.LastAssignedSplitID = max(st.LastAssignedSplitID, shard.ShardID)
 	}
 }
 
